@@ -11,7 +11,8 @@ EXTENDS ApiAuth, Json, TLC
 CONSTANTS MaxLen,    \* operations per history
           Emit,      \* print finished histories as JSON
           Small,     \* small domains (exhaustive search)
-          AuthSet    \* simulation: is an authenticator registered (fixed per process)
+          AuthSet,   \* simulation: is an authenticator registered (fixed per process)
+          Storms     \* simulation: histories contain concurrent configuration changes
 
 VARIABLES S, hist, done, cur, late
 vars == <<S, hist, done, cur, late>>
@@ -62,11 +63,14 @@ SmallKeyConfigs == { << >>,
                      << K(1, 1, "none", "ok", FALSE, TRUE), K(3, 3, "past", "ok", FALSE, FALSE) >>,
                      << K(3, 1, "none", "badperm", FALSE, FALSE), K(3, 3, "none", "ok", TRUE, TRUE) >> }
 \* a random key configuration (x is a dummy parameter: the operator must be evaluated afresh every time)
-RandKeys(x) == LET n == RandomElement(0..4) IN
-    [i \in 1..n |-> K(RandomElement(1..3), RandomElement(1..3), Rnd(<<"none", "none", "none", "far", "past", "soon">>),
+RandKeys(x, exps) == LET n == RandomElement(0..4) IN
+    [i \in 1..n |-> K(RandomElement(1..3), RandomElement(1..3), Rnd(exps),
                       Rnd(<<"ok", "ok", "ok", "ok", "badperm", "badexp">>), Rnd(<<FALSE, FALSE, FALSE, TRUE>>),
                       Rnd(<<FALSE, FALSE, TRUE>>))]
-KeyConfigs == IF Emit THEN {RandKeys(Len(hist))} ELSE SmallKeyConfigs
+KeyConfigs == IF Emit THEN {RandKeys(Len(hist), <<"none", "none", "none", "far", "past", "soon">>)} ELSE SmallKeyConfigs
+\* configurations for concurrent changes: no entry expires (no clean-up of the option is triggered)
+StormConfigs == IF Emit THEN {RandKeys(Len(hist), <<"none", "none", "far">>)}
+                ELSE {<< >>, << K(2, 3, "none", "ok", FALSE, FALSE), K(3, 1, "far", "ok", TRUE, TRUE) >>}
 
 AuthModes == IF Small THEN {<<"nil", 1, 1>>, <<"ok", 3, 1>>, <<"ok", 0, 4>>, <<"err", 1, 1>>, <<"denied", 1, 1>>}
              ELSE {<<"nil", 1, 1>>, <<"err", 1, 1>>, <<"denied", 1, 1>>} \cup {<<"ok", r, w>> : r, w \in Perms}
@@ -89,6 +93,9 @@ Step(o, st, lt) == /\ S' = st /\ late' = lt
                    /\ UNCHANGED done
 
 DoKeys == \E ks \in KeyConfigs : Step([op |-> "keys", keys |-> ks], SetKeys(S, ks), FALSE)
+\* the key option and the development mode are changed at the same time (two callers): both take effect
+DoStorm == \E ks \in StormConfigs : \E b \in Pick(BOOLEAN) :
+              Step([op |-> "storm", keys |-> ks, on |-> b], SetDev(SetKeys(S, ks), b), FALSE)
 DoDev == \E b \in Pick(BOOLEAN) : Step([op |-> "dev", on |-> b], SetDev(S, b), late)
 DoAuth == \E a \in AuthPick(Len(hist)) : Step([op |-> "auth", mode |-> a[1], r |-> a[2], w |-> a[3]], SetAuth(S, a[1], a[2], a[3]), late)
 DoExpire == /\ Len(S.sess) > 0
@@ -129,11 +136,14 @@ DoLogin == /\ ~Emit /\ CreatesSession(S, LoginReq)
            /\ Step([op |-> "req", q |-> LoginReq], AddSession(S), late)
 
 \* simulation: the family of the next operation is drawn first; a family that is not enabled becomes a request
-Families == <<"req", "req", "req", "req", "req", "req", "req", "req", "keys", "keys", "auth", "auth", "dev",
-              "expire", "expire", "clean", "wait", "wait", "panic">>
+Families == <<"req", "req", "req", "req", "req", "req", "req", "req", "req", "req", "req", "req", "req", "req", "req", "req",
+              "keys", "keys", "keys", "keys", "auth", "auth", "auth", "auth", "dev", "dev",
+              "expire", "expire", "expire", "expire", "clean", "clean", "wait", "wait", "wait", "wait", "panic", "panic", "storm">>
 Fam(f) == IF ~Emit THEN f
           ELSE IF f = "expire" /\ Len(S.sess) = 0 THEN "req"
-          ELSE IF f = "wait" /\ (~HasSoon(S) \/ late) THEN "req" ELSE f
+          ELSE IF f = "wait" /\ (~HasSoon(S) \/ late) THEN "req"
+          ELSE IF f = "storm" /\ ~Storms THEN "req"
+          ELSE IF f = "auth" /\ Storms THEN "storm" ELSE f
 
 DoOp == /\ Len(hist) < MaxLen /\ ~cur.on
         /\ \E f0 \in PickSeq(Families) : LET f == Fam(f0) IN
@@ -144,6 +154,7 @@ DoOp == /\ Len(hist) < MaxLen /\ ~cur.on
                 [] f = "expire" -> DoExpire
                 [] f = "clean"  -> DoClean
                 [] f = "wait"   -> DoWait
+                [] f = "storm"  -> DoStorm
                 [] f = "panic"  -> Emit /\ DoPanic
                 [] OTHER        -> FALSE
 
